@@ -1066,9 +1066,19 @@ struct TemplateOf<T>(T);
 
 impl<T: Parse> Parse for TemplateOf<T> {
     fn parse(input: syn::parse::ParseStream) -> Result<Self> {
-        Ok(Self(parse2::<T>(dollar_token_to_placeholder(
-            input.parse()?,
-        ))?))
+        let ts = dollar_token_to_placeholder(input.parse()?);
+        let span = ts.span();
+        let value = parse2::<T>(ts.clone())?;
+        // `$` is replaced by a parenthesized expression: it must stand where an expression can.
+        let applied = replace_tokens(
+            ts,
+            &|t| matches!(t, TokenTree::Ident(i) if i == placeholder()),
+            &quote!((__placeholder)),
+        );
+        if parse2::<T>(applied).is_err() {
+            bail!(span, "`$` can only be used where an expression is allowed.");
+        }
+        Ok(Self(value))
     }
 }
 
